@@ -189,6 +189,16 @@ CHECKS = {
   note="Partial. Trusted: Coq kernel, vm_compute, the C10 model (trace-validated), the schedule runner. OS scheduling and pickling are not modelled.",
   technique="Rocq proof (permutation invariance and exact characterisation of the start-up merge) over the trace-validated C10 model + schedule sweep differential (listing order, workers, hash seed, one-by-one opening)",
   design="4/C15"),
+ "C12": dict(
+  text="Coq theorems (C12/Props.v, over a transcription of get_candidates and the C05 resolution model): the prefix filter is exact (offered iff candidate "
+       "and begins with the prefix, case-insensitively); for every program a candidate that comes through USE is a public child of its module (PRIVATE "
+       "respected) and, under an ONLY list, one of the listed names; every name offered through a rename-free USE dictionary resolves under find_in_scope's "
+       "USE search (completion never offers what go-to-definition cannot follow). The transcription is compared with textDocument/completion on generated "
+       "workspaces; the property oracle is the generator's ground truth of accessibility; `%` (inherited members), USE, ONLY: and CALL contexts are checked "
+       "on an annotated catalogue.",
+  note="Partial. Trusted: Coq kernel, vm_compute, C05 generator and resolution model, catalogue. Context classification is catalogue-only.",
+  technique="Rocq proof (prefix filter exact; PRIVATE/ONLY respected for all programs; offered names resolve) over a transcription validated differentially + ground-truth differential on generated workspaces + context catalogue",
+  design="4/C12"),
 }
 NOT_YET = "not yet built in this round; see DESIGN.md section 8 (build order)"
 
